@@ -141,6 +141,7 @@ Proof.
       repeat match goal with
         | |- (if ?b then _ else _) = _ -> _ => destruct b
         | |- (let v' := _ in _) = _ -> _ => cbv zeta
+        | |- (match ?n with O => _ | S _ => _ end) = _ -> _ => destruct n
         end; try (apply K); intros [= <- <- <-]; reflexivity.
 Qed.
 
